@@ -64,7 +64,7 @@ def Op.witness (s : St) : Op → Option Bool
   | .vote acc _ caller => some (witOf s.env acc caller s.env.neoC)
   | .unregister pub caller => some (witOf s.env (acctOf s.env pub) caller s.env.neoC)
   | .lock acc _ caller => some (witOf s.env acc caller s.env.notary)
-  | .withdraw src _ caller _ => some (witOf s.env src caller s.env.notary)
+  | .withdraw src _ caller => some (witOf s.env src caller s.env.notary)
   | .setGpb _ caller => some (witCommittee s.env s.cur caller s.env.neoC)
   | .setRegPrice _ caller => some (witCommittee s.env s.cur caller s.env.neoC)
   | .blockAcc _ caller => some (witCommittee s.env s.cur caller s.env.policyC)
@@ -77,7 +77,7 @@ a vote, a deposit, a candidate record or a setting. -/
 theorem unwitnessed_no_effect (s : St) (op : Op) (h : op.witness s = some false) :
     (exec s op).cur = s.cur ∨ (exec s op).cur = s.snap := by
   cases op with
-  | transfer t src dst amt caller recv data =>
+  | transfer t src dst amt caller dk data =>
     simp only [Op.witness, Option.some.injEq] at h
     simp only [exec]
     split
@@ -122,7 +122,7 @@ theorem unwitnessed_no_effect (s : St) (op : Op) (h : op.witness s = some false)
       unfold lockDeposit
       simp only [Bool.not_false, if_true]
       unfold St.done; split <;> exact Or.inl rfl
-  | withdraw src dst caller recv =>
+  | withdraw src dst caller =>
     simp only [Op.witness, Option.some.injEq] at h
     simp only [exec]
     split
